@@ -3,7 +3,7 @@ Model of the formula evaluator's input synchronisation (C06).
 
 Anchors: `FormulaEvaluator._synchronize_metric_timestamps`, `FormulaEvaluator.apply`
 (`src/frequenz/sdk/timeseries/formula_engine/_formula_evaluator.py`), `FormulaEngine._run`,
-`FormulaEngine3Phase._run` (`_formula_engine.py`).
+`FormulaEngine3Phase._run` (`_formula_engine.py`; with `fixes/C06-3phase-resync.patch`, see the 3-phase section).
 
 Time unit: one input step (tick); real timestamps are `T0 + step * tick`, the code only compares (`max`, `<`, `>`)
 and copies them.  `val = none` = None / NaN / ±inf.
@@ -20,6 +20,7 @@ Not modelled: streams with gaps (the `RuntimeError` branch of `_synchronize_metr
 blocks there.
 -/
 import Frequenz.Model.Prelude
+import Frequenz.Extracted.Evaluator
 
 namespace Evaluator
 
@@ -100,7 +101,12 @@ def run (n : Nat) (f : List (Option Rat) → Option Rat) (es : List Ev) : St := 
 
 def enabled (n : Nat) (f : List (Option Rat) → Option Rat) (σ : St) : Bool := (apply n f 0 σ).isSome
 
-/-! ### 3-phase engine: three per-phase engines, zipped without comparing timestamps -/
+/-! ### 3-phase engine: three per-phase engines, read one sample each per round
+
+`FormulaEngine3Phase._run`.  With `fixes/C06-3phase-resync.patch` (`resync = true`): after the three receives the
+lagging phases are advanced until all three samples carry the latest of the three timestamps.  On the pinned tree
+(`resync = false`) the three samples are zipped without comparing timestamps.  Which one the source does is
+extracted on every run (`Extracted.Evaluator.threePhaseResyncs`). -/
 
 structure Sample3 where
   ts : Int
@@ -116,31 +122,80 @@ structure Phase where
 
 inductive Ev3 where
   | ph (p : Nat) (e : Ev)   -- an event of the per-phase engine `p` (0, 1, 2)
-  | zip                     -- one iteration of `FormulaEngine3Phase._run`; no-op until all three have an output
+  | zip                     -- one iteration of `FormulaEngine3Phase._run`; no-op while it could not complete
 deriving DecidableEq, Repr
 
 structure St3 where
   s1 : St := {}
   s2 : St := {}
   s3 : St := {}
-  out : List Sample3 := []     -- the k-th iteration reads the k-th output of every per-phase engine
+  z1 : Nat := 0                -- how many outputs of per-phase engine 1 `_run` has received so far
+  z2 : Nat := 0
+  z3 : Nat := 0
+  out : List Sample3 := []
 
 def St3.init : St3 := {}
 
-def zipStep (σ : St3) : Option St3 :=
-  let k := σ.out.length
-  match σ.s1.out[k]?, σ.s2.out[k]?, σ.s3.out[k]? with
-  | some a, some b, some c => some { σ with out := σ.out ++ [⟨a.ts, a.val, b.val, c.val⟩] }
-  | _, _, _ => none
+/-- `while phase.timestamp < t: phase = await rx.receive()` on the unread outputs `q` (head = the sample already
+received): the sample the loop ends with and how many further samples it received; `none` = it would wait. -/
+def seek (t : Int) : List Sample → Option (Sample × Nat)
+  | [] => none
+  | s :: r =>
+    if s.ts < t then
+      match seek t r with
+      | some (x, k) => some (x, k + 1)
+      | none => none
+    else some (s, 0)
 
-def step3 (P1 P2 P3 : Phase) (σ : St3) : Ev3 → St3
+/-- one round of the fixed `_run` -/
+def zipResync (σ : St3) : Option St3 :=
+  let q1 := σ.s1.out.drop σ.z1
+  let q2 := σ.s2.out.drop σ.z2
+  let q3 := σ.s3.out.drop σ.z3
+  if q1.isEmpty || q2.isEmpty || q3.isEmpty then none
+  else
+    let t := max (max (headTs q1) (headTs q2)) (headTs q3)
+    match seek t q1 with
+    | none => none
+    | some (a, k1) =>
+      match seek t q2 with
+      | none => none
+      | some (b, k2) =>
+        match seek t q3 with
+        | none => none
+        | some (c, k3) =>
+          some { σ with z1 := σ.z1 + k1 + 1, z2 := σ.z2 + k2 + 1, z3 := σ.z3 + k3 + 1,
+                        out := σ.out ++ [⟨a.ts, a.val, b.val, c.val⟩] }
+
+/-- one round of the pinned `_run`: no comparison of timestamps -/
+def zipPinned (σ : St3) : Option St3 :=
+  match σ.s1.out[σ.z1]? with
+  | none => none
+  | some a =>
+    match σ.s2.out[σ.z2]? with
+    | none => none
+    | some b =>
+      match σ.s3.out[σ.z3]? with
+      | none => none
+      | some c =>
+        some { σ with z1 := σ.z1 + 1, z2 := σ.z2 + 1, z3 := σ.z3 + 1,
+                      out := σ.out ++ [⟨a.ts, a.val, b.val, c.val⟩] }
+
+def zipStep (resync : Bool) (σ : St3) : Option St3 :=
+  if resync then zipResync σ else zipPinned σ
+
+def step3 (resync : Bool) (P1 P2 P3 : Phase) (σ : St3) : Ev3 → St3
   | .ph p e =>
     if p = 0 then { σ with s1 := step P1.n P1.f σ.s1 e }
     else if p = 1 then { σ with s2 := step P2.n P2.f σ.s2 e }
     else if p = 2 then { σ with s3 := step P3.n P3.f σ.s3 e }
     else σ
-  | .zip => (zipStep σ).getD σ
+  | .zip => (zipStep resync σ).getD σ
 
-def run3 (P1 P2 P3 : Phase) (es : List Ev3) : St3 := es.foldl (step3 P1 P2 P3) St3.init
+def run3 (resync : Bool) (P1 P2 P3 : Phase) (es : List Ev3) : St3 :=
+  es.foldl (step3 resync P1 P2 P3) St3.init
+
+/-- what the current source does (regenerated from `_formula_engine.py`) -/
+def sourceResyncs : Bool := Extracted.Evaluator.threePhaseResyncs
 
 end Evaluator
